@@ -7,6 +7,9 @@ import (
 	"fmt"
 	"math/big"
 	"os"
+	"path/filepath"
+	"sort"
+	"strings"
 
 	"github.com/MixinNetwork/mixin/common"
 	"verifharness/vh"
@@ -16,6 +19,9 @@ import (
 type Options struct {
 	OracleC01 bool
 	OracleC05 bool
+	// RejectSample > 1: only one in RejectSample rejected cases is also evaluated by
+	// the model (accepted and panicking cases always are); the oracle sees every case.
+	RejectSample int
 }
 
 const (
@@ -76,6 +82,9 @@ func Run(c *vh.Ctx, cs Case, opt Options) {
 	for _, m := range cs.Muts {
 		c.Count("mut:" + m + "/" + class)
 	}
+	if opt.RejectSample > 1 && class == ClassReject && int(sum[31])%opt.RejectSample != 0 {
+		term = ""
+	}
 	c.Case(kind, hex.EncodeToString(sum[:12]), class == ClassAccept || reads > 0, cs, term)
 
 	// the input stage alone does not refuse node-cancel typed transactions (Props/C05.v, ..._refuted)
@@ -97,6 +106,32 @@ func Run(c *vh.Ctx, cs Case, opt Options) {
 			c.Fail("conservation", msg, cs)
 		}
 	}
+}
+
+// LoadCorpus reads the static corpus cases (replay-format JSON files) of a property.
+func LoadCorpus(property string) []Case {
+	root := os.Getenv("VERIF_ROOT")
+	if root == "" {
+		return nil
+	}
+	files, _ := filepath.Glob(filepath.Join(root, "corpus", property, "*.json"))
+	sort.Strings(files)
+	var out []Case
+	for _, f := range files {
+		b, err := os.ReadFile(f)
+		if err != nil {
+			continue
+		}
+		var w struct {
+			Case Case `json:"case"`
+		}
+		if json.Unmarshal(b, &w) == nil && w.Case.Tx != "" {
+			w.Case.Kind = "corpus-file/" + strings.TrimSuffix(filepath.Base(f), ".json")
+			w.Case.Muts = nil
+			out = append(out, w.Case)
+		}
+	}
+	return out
 }
 
 func mustJSON(v any) string {
